@@ -2,8 +2,9 @@
 
 Decided: renew-or-add structure, the no-backdating guard and its call sites,
 hashed lease secrets on the newest container schemas, agreement of the lease
-struct formats with their pack/unpack sites, hashing of candidate secrets, the lease
-slot layout, renewal independent of available space, and slot-numbered lease enumeration.
+struct formats with their pack/unpack sites and the hash width, hashing of candidate secrets, the lease
+slot layout and its count/offset field accessors, renewal independent of available space, slot-numbered
+lease enumeration, and mutable slot occupancy (empty marker, where a new lease may go).
 DESIGN.md section 5, C25.  (Lease isolation from data writes is C23.2/C23.6.)"""
 from sa.h import *
 
@@ -15,30 +16,43 @@ EXPLANATION = (
     "(slot writes: secrets[1], secrets[2]); (2) renew_lease writes a record only for the lease whose is_renew_secret(renew_secret) "
     "holds, only under allow_backdate or new_expire_time > lease.get_expiration_time(), writes lease.renew(new) to that "
     "lease's own slot, skips the write of a matched lease only under new <= current expiry, returns normally only after "
-    "a secret matched and raises IndexError otherwise (StorageServer.renew_lease: also when no share exists); allow_backdate "
-    "defaults to False and no call site in the package passes it; (3) the schema with the highest version in "
+    "a secret matched and raises IndexError otherwise (StorageServer.renew_lease: also when no share exists, and never after "
+    "the shares were renewed); allow_backdate defaults to False and no call site in the package passes it; (3) the schema with the highest version in "
     "mutable_schema/immutable_schema.ALL_SCHEMAS (= NEWEST_SCHEMA_VERSION, the default of both container "
     "constructors, never overridden by a caller) uses HashedLeaseSerializer; its serialize never hands a LeaseInfo "
     "to _to_data without _hash_lease_info, which hashes both secrets with the function also given to unserialize; "
     "_write_lease_record writes only lease_serializer.serialize(lease_info); no function bypasses the serializers by "
     "calling to_mutable_data/to_immutable_data; (4) IMMUTABLE_FORMAT/MUTABLE_FORMAT agree with the pack argument "
-    "order, the unpack name lists, the LeaseInfo attributes, the secret field widths and the containers' LEASE_SIZE; "
+    "order, the unpack name lists, the LeaseInfo attributes, the secret field widths and the containers' LEASE_SIZE, and _hash_secret produces a raw digest "
+    "of exactly the secret field width (struct.pack would cut or pad it silently and no candidate would ever match again); "
     "(5) HashedLeaseInfo.is_renew_secret/is_cancel_secret hash the candidate before the timing-safe comparison "
     "(the pre-hashed bypass only for _HashedCancelSecret), and renew keeps the hashed wrapper and changes only the "
     "expiration time; (6) lease slot layout: MutableShareFile._read_lease_record/_write_lease_record compute identical "
     "slot offsets under identical conditions (N < 4: HEADER_SIZE + N*LEASE_SIZE; else extra_lease_offset + 4 + "
     "(N-4)*LEASE_SIZE), the extra-lease count is incremented exactly when a record is appended, ShareFile writes lease N "
-    "at _lease_offset + N*LEASE_SIZE, reads sequentially from there and appends at index num_leases with count+1; "
+    "at _lease_offset + N*LEASE_SIZE, reads sequentially from there and appends at index num_leases with count+1, which reaches "
+    "the file on every path after the record write; _read_extra_lease_offset / _read_num_extra_leases / _write_num_extra_leases and "
+    "ShareFile._read_num_leases / _write_encoded_num_leases position the file (EXTRA_LEASE_OFFSET, the extra-lease offset, the header "
+    "offset at which get_leases finds the count) immediately before their read / write; "
     "(7) a renewal needs no space: add_or_renew_lease (both containers) reaches the renew attempt on every path - no return, "
     "raise (NoSpace) or space-dependent precondition before it; StorageServer._add_or_renew_leases offers every share to "
     "add_or_renew_lease, and add_lease / allocate_buckets / slot_testv_and_readv_and_writev skip it only under renew_leases=False, "
-    "failed test vectors or an empty share collection; (8) the number handed out with a lease is the slot it lives in: "
+    "failed test vectors or an empty share collection, and the collection they hand over is derived from the shares of the "
+    "storage index; (8) the number handed out with a lease is the slot it lives in: "
     "MutableShareFile._enumerate_leases pairs each lease with the very slot argument of the _read_lease_record call that produced it "
     "(not a position among the live leases), visits range(_get_num_lease_slots(f)) and hands out every slot that is not None; "
     "ShareFile.get_leases yields every non-empty LEASE_SIZE record with one file access per iteration, so enumerate() in renew_lease "
-    "counts slots; MutableShareFile.cancel_lease blanks only the enumerated slot of a lease whose is_cancel_secret matched.  "
+    "counts slots; MutableShareFile.cancel_lease blanks only the enumerated slot of a lease whose is_cancel_secret matched; "
+    "(9) mutable slot occupancy: _read_lease_record returns None only past a test that found the unserialized record's owner_num "
+    "== 0 and otherwise returns that record; _get_first_empty_lease_slot returns only a slot whose _read_lease_record(f, slot) is None "
+    "held in the same iteration; MutableShareFile.add_lease writes the given lease, on every normal path, to the slot "
+    "_get_first_empty_lease_slot found (checked is not None) or to slot _get_num_lease_slots(f).  "
     "Undecided: hash strength, clock values, byte-level file effects; whether MutableShareFile.add_lease may refuse for lack of "
-    "space when an empty slot could be reused (a resource question, not part of the stated property).")
+    "space when an empty slot could be reused, and the NoSpace comparison of ShareFile.add_or_renew_lease (resource questions, not "
+    "part of the stated property); the values of EXTRA_LEASE_OFFSET / ShareFile._lease_offset and which schema an existing container "
+    "is opened with (edits there crash on first use in the sweep, no structural rule); what cancel_lease reports, returns, unlinks "
+    "and the content of its blank record (cancellation is not part of the stated property); which shares get_shares / "
+    "_iter_share_files enumerate for a storage index.")
 TECHNIQUE = "static analysis: CFG gate rules, keyword-argument sweep, constant folding of struct formats, schema tables"
 
 SF = "storage.immutable:ShareFile"
@@ -170,6 +184,46 @@ def slot_cases(fn, fnm, var, bump_tail=None):
         if cfg.nodes[nid].kind == "exit":
             exits.add((st[2], st[3]))
     return cases, exits, len(visited)
+
+
+def unpositioned_accesses(fn, fp, want, kinds):
+    """File-field accessor `fn` working on the file parameter `fp`: every fp.<kind>(..) call (kind in `kinds`) must happen
+    right after fp.seek(E) with want(normal form of E, E); nothing else may use the file in between (a method call on it, or a
+    call it is handed to - both move the file position).  Returns (access nodes, [(node, witness)] of unpositioned ones, states)."""
+    cfg = fn.cfg()
+    fnm = FlowNorm(fn)
+
+    def file_calls(n):
+        return [c for c in node_calls(n) if (isinstance(c.func, ast.Attribute) and attr_path(c.func.value) == fp)
+                or any(attr_path(a) == fp for a in c.args) or any(attr_path(k.value) == fp for k in c.keywords)]
+
+    def is_access(c):
+        return isinstance(c.func, ast.Attribute) and attr_path(c.func.value) == fp and c.func.attr in kinds
+
+    def is_gate(n):
+        fc = file_calls(n)
+        sk = [c for c in fc if isinstance(c.func, ast.Attribute) and attr_path(c.func.value) == fp and c.func.attr == "seek"
+              and len(c.args) == 1 and not c.keywords]
+        if len(sk) != 1:
+            return False
+        inner = {id(x) for x in ast.walk(sk[0].args[0])}      # evaluated before the seek itself
+        return all(c is sk[0] or id(c) in inner for c in fc) and want(fnm.norm(n, sk[0].args[0]), sk[0].args[0])
+
+    def transfer(n, lab, nxt, st):
+        if lab == "exc":
+            return None
+        if not file_calls(n):
+            return st
+        return is_gate(n)
+    visited, parent = explore(cfg, False, transfer)
+    acc = [n for n in cfg.nodes if any(is_access(c) for c in file_calls(n))]
+    bad = []
+    for n in acc:
+        if len(file_calls(n)) != 1:
+            bad.append((n, None))
+        elif (n.id, False) in visited:
+            bad.append((n, witness(cfg, parent, (n.id, False))))
+    return acc, bad, len(visited)
 
 
 # -------------------------------------------------------------------- rules
@@ -374,6 +428,14 @@ def run(ctx: Context):
                 r.violation(sr, sr.loc(), "StorageServer.renew_lease can return normally without having renewed anything "
                             "(no share for the storage index must raise IndexError) (path: %s)" % w.brief(), w)
                 break
+        # ... and a renewal that went through is not reported as a failure afterwards
+        for (nid, st) in sorted(vis, key=lambda x: (x[0], str(x[1]))):
+            m = scfg.nodes[nid]
+            if m.kind == "stmt" and isinstance(m.ast, ast.Raise) and st[0]:
+                w = witness(scfg, par, (nid, st))
+                r.violation(sr, sr.loc(m.ast), "StorageServer.renew_lease raises (%s) after every share's lease was renewed: a renewal with a "
+                            "known secret is reported as an error (path: %s)" % (src(sr, m.ast), w.brief()), w)
+                break
         for c in calls_in_func(sr, "renew_lease"):
             r.require(len(c.args) == 2 and attr_path(c.args[0]) == first_positional_params(sr)[1], sr, sr.loc(c),
                       "StorageServer.renew_lease passes %s" % src(sr, c))
@@ -523,12 +585,13 @@ def run(ctx: Context):
 
     # -- 4. struct agreement ------------------------------------------------------------
     with ctx.rule("C25.4", "R5", "lease struct formats agree with pack argument order, unpack name lists, LeaseInfo attributes "
-                  "and the containers' LEASE_SIZE", expected=8) as r:
+                  "and the containers' LEASE_SIZE; the secret hash fills the secret field exactly", expected=9) as r:
         lm = idx.module("allmydata.storage.lease")
         li = idx.cls("storage.lease:LeaseInfo")
         attrs = [a.lstrip("_") for a in li.attrs if isinstance(li.attrs[a][-1], ast.Call) and call_name(li.attrs[a][-1]) == "attr.ib"]
         if len(attrs) < 5:
             raise AnchorVanished("LeaseInfo attr.ib fields not found: %s" % attrs)
+        secret_widths = set()
         for (kind, const, cq) in (("immutable", "IMMUTABLE_FORMAT", SF), ("mutable", "MUTABLE_FORMAT", MSF)):
             fmt = fo.module_const("storage.lease", const)
             fields = struct_fields(fmt) if isinstance(fmt, str) else []
@@ -568,6 +631,8 @@ def run(ctx: Context):
                 for nm, fl in zip(rnames, fields):
                     want = {"renew_secret": ("s", 32), "cancel_secret": ("s", 32), "nodeid": ("s", 20)}.get(nm, ("L", 1))
                     r.require(fl == want, "allmydata.storage.lease:" + const, where, "field %s is %r in %s, expected %r" % (nm, fl, const, want))
+                    if nm in ("renew_secret", "cancel_secret"):
+                        secret_widths.add(fl)
             # sizes
             ci = idx.cls(cq)
             try:
@@ -582,6 +647,27 @@ def run(ctx: Context):
             sv_ = only_return(szf).value
             r.require(isinstance(sv_, ast.Call) and call_name(sv_) == "struct.calcsize" and attr_path(sv_.args[0]) == const, szf, szf.loc(),
                       "%s does not return calcsize(%s)" % (short(szf), const))
+        # the stored hash fills the secret field exactly: struct.pack truncates / zero-pads a value of another length
+        # without complaint, and the re-hashed candidate would then never equal the stored bytes
+        hsf = idx.func("storage.lease_schema:HashedLeaseSerializer._hash_secret")
+        r.site(hsf, None, "digest size")
+        hv = only_return(hsf).value
+        if not (isinstance(hv, ast.Call) and call_tail(hv) == "blake2b"):
+            raise AnchorVanished("HashedLeaseSerializer._hash_secret: blake2b call not found")
+        dsz = arg(hv, 1, "digest_size")
+        dszv = _fold(fo, dsz, hsf.module, hsf.cls) if dsz is not None else None
+        r.require(isinstance(dszv, int) and not isinstance(dszv, bool) and secret_widths == {("s", dszv)}, hsf, hsf.loc(hv),
+                  "_hash_secret produces a %s-byte digest but the lease formats store secrets as %s: struct.pack cuts or pads the hash "
+                  "silently and is_renew_secret(re-hashed candidate) never matches the stored bytes, so every add duplicates the lease"
+                  % (dszv if dsz is not None else "default-size", sorted(secret_widths)))
+        enc = arg(hv, 5, "encoder")
+        encp = attr_path(enc) if enc is not None else None
+        if encp is not None:
+            head_, _, rest_ = encp.partition(".")
+            full = hsf.module.imports.get(head_, head_) + ("." + rest_ if rest_ else "")
+        okenc = encp is not None and full == "nacl.encoding.RawEncoder"
+        r.require(okenc, hsf, hsf.loc(hv), "_hash_secret encodes the digest with %s, not nacl.encoding.RawEncoder: the encoded hash is "
+                  "longer than the secret field and is cut by struct.pack" % (encp or "the default HexEncoder"))
         # the record reader of each container reads LEASE_SIZE bytes and hands them to the schema's unserialize
         for (cq, rd) in ((SF, "get_leases"), (MSF, "_read_lease_record")):
             g = idx.func(cq + "." + rd)
@@ -664,7 +750,7 @@ def run(ctx: Context):
     # -- 6. lease slots: writer and reader agree on where a lease lives ----------------------
     with ctx.rule("C25.6", "R6", "lease slot layout: _write_lease_record and the lease readers compute the same slot offsets "
                   "(mutable: 4 header slots, then count + extra slots; immutable: _lease_offset + i * LEASE_SIZE); a new slot "
-                  "is counted exactly when it is appended", expected=6) as r:
+                  "is counted exactly when it is appended; the count / offset fields are accessed at their own positions", expected=11) as r:
         ci = idx.cls(MSF)
         try:
             T = (fo.class_attr(ci, "DATA_OFFSET") - fo.class_attr(ci, "HEADER_SIZE")) // fo.class_attr(ci, "LEASE_SIZE")
@@ -681,6 +767,29 @@ def run(ctx: Context):
         r.site(wn_, None, "extra-lease count field %r" % cfmt)
         r.require(len(pk) == 1 and _fold(fo, pk[0].args[0], wn_.module, wn_.cls) == cfmt, wn_, wn_.loc(),
                   "extra-lease count is written with a different format than it is read with (%r)" % cfmt)
+        r.require(len(pk) == 1 and len(pk[0].args) == 2 and attr_path(pk[0].args[1]) == first_positional_params(wn_)[1], wn_, wn_.loc(),
+                  "_write_num_extra_leases does not store the count it is given")
+        # the count field lives at the extra-lease offset, the offset field at EXTRA_LEASE_OFFSET: each accessor positions the
+        # file there immediately before it reads / writes (reading the offset field itself moves the file into the header slots)
+        ro_ = idx.func(MSF + "._read_extra_lease_offset")
+        for (g, kinds, what) in ((ro_, ("read",), None), (rn_, ("read",), ro_), (wn_, ("write",), ro_)):
+            gp = first_positional_params(g)[0]
+            if what is None:
+                want = lambda v, e: v == "self.EXTRA_LEASE_OFFSET"
+                where_ = "EXTRA_LEASE_OFFSET"
+            else:
+                want = lambda v, e, gp=gp: v == "self._read_extra_lease_offset(%s)" % gp
+                where_ = "the extra-lease offset"
+            acc, bad, nst = unpositioned_accesses(g, gp, want, kinds)
+            if not acc:
+                raise AnchorVanished("%s: no %s.%s(..)" % (short(g), gp, kinds[0]))
+            r.count(nst)
+            for a_ in acc:
+                r.site(g, a_.ast, "positioned %s" % kinds[0])
+            for (bn, w) in bad:
+                r.violation(g, g.loc(bn.ast), "%s %ss %s without having positioned the file at %s immediately before: the "
+                            "extra-lease %s is taken from / put into some other bytes of the container (lease slots are lost or "
+                            "overwritten)" % (short(g), kinds[0], src(g, bn.ast), where_, "offset" if what is None else "count"), w)
         got = {}
         for name in ("_read_lease_record", "_write_lease_record"):
             g = idx.func(MSF + "." + name)
@@ -747,6 +856,68 @@ def run(ctx: Context):
         pk = [c for c in calls_in_func(al, "pack") if call_name(c) == "struct.pack" and len(c.args) == 2]
         okc = len(pk) == 1 and re.match(r"^\(1 \+ self\._read_num_leases\(\w+\)\)$", str(anm.poly(pk[0].args[1]))) is not None
         r.require(okc, al, al.loc(), "ShareFile.add_lease does not record num_leases + 1 as the new lease count")
+        # ... and that count reaches the file on every path that wrote the record
+        acfg = al.cfg()
+        afn = FlowNorm(al)
+        cw = []
+        for n in acfg.nodes:
+            for c in node_calls(n):
+                if call_name(c) == "self._write_encoded_num_leases" and len(c.args) == 2 and okc:
+                    v = c.args[1]
+                    if isinstance(v, ast.Name):
+                        _dn, v = def_of(afn, n, v)
+                    if v is pk[0]:
+                        cw.append(n)
+        recw = [n for n in acfg.nodes if self_calls(n, "_write_lease_record")]
+        for (s_, w) in find_path_from_to_avoiding(acfg, lambda x: x in recw, gate_node=lambda m: m in cw):
+            r.violation(al, al.loc(s_.ast), "ShareFile.add_lease can return after writing the record without storing the new lease count "
+                        "(self._write_encoded_num_leases(f, <packed num_leases + 1>)): get_leases never sees the lease, so it cannot be "
+                        "renewed and the next add overwrites it (path: %s)" % w.brief(), w)
+        # the count field is read and written at the position where get_leases finds it in the header
+        rl_ = idx.func(SF + "._read_num_leases")
+        we_ = idx.func(SF + "._write_encoded_num_leases")
+        ks = {}
+        for (g, kinds) in ((rl_, ("read",)), (we_, ("write",))):
+            gp = first_positional_params(g)[0]
+            seen_k = []
+
+            def want(v, e, seen_k=seen_k, g=g):
+                k = _fold(fo, e, g.module, g.cls)
+                if isinstance(k, int) and not isinstance(k, bool):
+                    seen_k.append(k)
+                    return True
+                return False
+            acc, bad, nst = unpositioned_accesses(g, gp, want, kinds)
+            if not acc:
+                raise AnchorVanished("%s: no %s.%s(..)" % (short(g), gp, kinds[0]))
+            r.count(nst)
+            for a_ in acc:
+                r.site(g, a_.ast, "positioned %s" % kinds[0])
+            for (bn, w) in bad:
+                r.violation(g, g.loc(bn.ast), "%s %ss %s without having positioned the file at the (constant) lease-count offset "
+                            "immediately before" % (short(g), kinds[0], src(g, bn.ast)), w)
+            ks[g.name] = set(seen_k)
+        hdr = None
+        for n in func_own_nodes(gl):
+            if isinstance(n, ast.Assign) and len(n.targets) == 1 and isinstance(n.targets[0], ast.Tuple) and isinstance(n.value, ast.Call) \
+                    and call_name(n.value) == "struct.unpack" and len(n.value.args) == 2:
+                hdr = n
+        loops = [n for n in func_own_nodes(gl) if isinstance(n, ast.For)]
+        cnt = None
+        if hdr is not None and len(loops) == 1 and isinstance(loops[0].iter, ast.Call) and call_name(loops[0].iter) == "range" \
+                and len(loops[0].iter.args) == 1 and isinstance(loops[0].iter.args[0], ast.Name):
+            names_ = [attr_path(e) for e in hdr.targets[0].elts]
+            hf = _fold(fo, hdr.value.args[0], gl.module, gl.cls)
+            if isinstance(hf, str) and loops[0].iter.args[0].id in names_ and len(struct_fields(hf)) == len(names_):
+                j = names_.index(loops[0].iter.args[0].id)
+                pre = (hf[0] if hf[0] in "@=<>!" else "") + "".join(("%d%s" % (c_, k_)) if k_ in "sp" else k_ for (k_, c_) in struct_fields(hf)[:j])
+                cnt = _struct.calcsize(pre)
+        if cnt is None:
+            raise AnchorVanished("ShareFile.get_leases: the header unpack that yields the lease count was not found")
+        r.require(ks["_read_num_leases"] == ks["_write_encoded_num_leases"] == {cnt}, we_, we_.loc(),
+                  "the lease count is read at %s by _read_num_leases and written at %s by _write_encoded_num_leases, but get_leases takes it "
+                  "from header offset %d: a new lease is not seen by the reader" % (
+                      sorted(ks["_read_num_leases"]), sorted(ks["_write_encoded_num_leases"]), cnt))
 
     # -- 7. a renewal needs no space: nothing may refuse or skip it before it was tried ------------------
     with ctx.rule("C25.7", "R1/R3", "add_or_renew_lease reaches the renew attempt on every path (no exit or refusal, e.g. NoSpace, "
@@ -823,6 +994,10 @@ def run(ctx: Context):
             if isinstance(a0, ast.Call) and call_tail(a0) in ("values", "items", "keys") and isinstance(a0.func, ast.Attribute):
                 a0 = a0.func.value
             root = a0.id if isinstance(a0, ast.Name) else None
+            sip = first_positional_params(g)[0]
+            r.require(a0 is not None and sip in depends_on(g, a0), g, g.loc(call), "the shares %s hands to _add_or_renew_leases (%s) are not "
+                      "derived from the shares stored for %s: existing shares are neither renewed nor given the lease" % (
+                          short(g), src(g, arg(call, 0)) if arg(call, 0) is not None else "?", sip))
 
             def may_skip(n, lab, g=g, gnm=gnm, flags=flags, root=root):
                 ft = gnm.edge_fact(n, lab)
@@ -1025,3 +1200,111 @@ def run(ctx: Context):
             for (t, w) in find_path_avoiding(ccfg, lambda x: x is W, gate_edge=lambda m, lab: cnm.edge_fact(m, lab) == cmatch,
                                              kill=lambda m: m is head):
                 r.violation(cl, cl.loc(wc), "cancel_lease overwrites a lease whose cancel secret was not matched (path: %s)" % w.brief(), w)
+
+    # -- 9. mutable slots: which slots are empty, and where a new lease may go -----------------------------------
+    with ctx.rule("C25.9", "R6/R1", "mutable slot occupancy: _read_lease_record reports a slot as empty (None) only for a record with "
+                  "owner_num == 0 and returns the unserialized record otherwise; _get_first_empty_lease_slot returns only a slot it "
+                  "read as empty; add_lease writes the new lease to such a slot or to the slot after the last one, and always writes it",
+                  expected=4) as r:
+        rl = idx.func(MSF + "._read_lease_record")
+        cfg = rl.cfg()
+        fnm = FlowNorm(rl)
+        REC = r"self\._schema\.lease_serializer\.unserialize\(.*\)"
+
+        def empty_rec(m, lab):
+            ft = fnm.edge_fact(m, lab)
+            if not ft:
+                return False
+            if ft[0] == "false":
+                return re.match("^%s\\.owner_num$" % REC, str(ft[1])) is not None
+            if ft[0] == "==" and "0" in ft[1:]:
+                other = ft[2] if ft[1] == "0" else ft[1]
+                return re.match("^%s\\.owner_num$" % REC, str(other)) is not None
+            return False
+
+        def is_none(v):
+            return v is None or (isinstance(v, ast.Constant) and v.value is None)
+        n_ret = 0
+        for n in cfg.find(is_return):
+            if is_none(n.ast.value):
+                continue
+            n_ret += 1
+            r.site(rl, n.ast, "occupied slot")
+            r.require(re.match("^%s$" % REC, fnm.norm(n, n.ast.value)) is not None, rl, rl.loc(n.ast),
+                      "_read_lease_record returns %s, not the record it unserialized from the slot" % src(rl, n.ast.value))
+
+        def tr9(m, lab, nxt, st):
+            if lab == "exc":
+                return None
+            if empty_rec(m, lab):
+                return 1
+            if m.kind == "stmt" and isinstance(m.ast, ast.Return) and not is_none(m.ast.value):
+                return 2
+            return st
+        vis, par = explore(cfg, 0, tr9)
+        r.count(len(vis))
+        for (nid, st) in sorted(vis):
+            if cfg.nodes[nid].kind == "exit" and st == 0:
+                w = witness(cfg, par, (nid, st))
+                real = [m for (m, _l) in w.path if m.kind not in ("entry", "exit", "raise")]
+                r.violation(rl, rl.loc(real[-1].ast if real else None), "_read_lease_record can report a slot as empty (return None) "
+                            "although the record's owner_num was not found to be 0: the lease in it can no longer be renewed, is added "
+                            "a second time, and its slot is handed out for another lease (path: %s)" % w.brief(), w)
+                break
+        if not n_ret and not r.violations:
+            raise AnchorVanished("_read_lease_record returns no lease")
+        # _get_first_empty_lease_slot
+        ge = idx.func(MSF + "._get_first_empty_lease_slot")
+        gcfg = ge.cfg()
+        gnm = FlowNorm(ge)
+        gfp = first_positional_params(ge)[0]
+        heads = [h for h in gcfg.nodes if h.kind == "iter"]
+        n_slot = 0
+        for n in gcfg.find(is_return):
+            v = n.ast.value
+            if is_none(v):
+                continue
+            n_slot += 1
+            r.site(ge, n.ast, "empty slot")
+            want = "self._read_lease_record(%s, %s)" % (gfp, gnm.norm(n, v))
+
+            def read_empty(m, lab, want=want):
+                ft = gnm.edge_fact(m, lab)
+                return bool(ft) and ft[0] == "is" and "None" in ft[1:] and want in ft[1:]
+            for (t, w) in find_path_avoiding(gcfg, lambda x, n=n: x is n, gate_edge=read_empty, kill=lambda m: m in heads):
+                r.violation(ge, ge.loc(n.ast), "_get_first_empty_lease_slot returns slot %s without having read it as empty "
+                            "(self._read_lease_record(%s, %s) is None): add_lease overwrites the lease that lives there (path: %s)" % (
+                                src(ge, v), gfp, src(ge, v), w.brief()), w)
+        if not n_slot:
+            raise AnchorVanished("_get_first_empty_lease_slot returns no slot")
+        # add_lease
+        ad = idx.func(MSF + ".add_lease")
+        acfg = ad.cfg()
+        anm_ = FlowNorm(ad)
+        lip = first_positional_params(ad)[-1]
+        wn = [n for n in acfg.nodes if self_calls(n, "_write_lease_record")]
+        if not wn:
+            raise AnchorVanished("MutableShareFile.add_lease: no _write_lease_record call")
+        for W in wn:
+            wc = self_calls(W, "_write_lease_record")[0]
+            r.site(ad, wc, "new lease")
+            if len(wc.args) != 3 or wc.keywords:
+                r.violation(ad, ad.loc(wc), "add_lease calls %s" % src(ad, wc))
+                continue
+            r.require(attr_path(wc.args[2]) == lip, ad, ad.loc(wc), "add_lease writes %s, not the lease it was given" % src(ad, wc.args[2]))
+            fv = attr_path(wc.args[0])
+            slot = anm_.norm(W, wc.args[1])
+            if slot == "self._get_num_lease_slots(%s)" % fv:
+                continue          # the slot after the last one: _write_lease_record appends
+            if slot == "self._get_first_empty_lease_slot(%s)" % fv:
+                found = lambda m, lab, slot=slot: anm_.edge_fact(m, lab) in (("is not", "None", slot), ("is not", slot, "None"))
+                for (t, w) in find_path_avoiding(acfg, lambda x, W=W: x is W, gate_edge=found):
+                    r.violation(ad, ad.loc(wc), "add_lease writes to the slot _get_first_empty_lease_slot returned without having "
+                                "checked that one was found (is not None) (path: %s)" % w.brief(), w)
+                continue
+            r.violation(ad, ad.loc(wc), "add_lease writes the new lease to slot %s, which is neither an empty slot "
+                        "(_get_first_empty_lease_slot) nor the slot after the last one (_get_num_lease_slots): a live lease "
+                        "can be overwritten" % src(ad, wc.args[1]))
+        for (t, w) in find_path_avoiding(acfg, lambda x: x.kind == "exit", gate_node=lambda m: m in wn, skip_exc_edges=True):
+            r.violation(ad, ad.loc(), "MutableShareFile.add_lease can return normally without having written the lease "
+                        "(path: %s)" % w.brief(), w)
